@@ -59,6 +59,19 @@ def import_sut():
     import neurodsp.burst  # noqa: F401
     import neurodsp.timefrequency  # noqa: F401
     import neurodsp.plts  # noqa: F401
+    import asyncio  # noqa: F401           (standard-library modules that create module-level
+    import concurrent.futures.process  # noqa: F401   synchronisation objects: imported before the window)
+    import concurrent.futures.thread  # noqa: F401
+    import logging  # noqa: F401
+    import multiprocessing.connection  # noqa: F401
+    import multiprocessing.managers  # noqa: F401
+    import multiprocessing.pool  # noqa: F401
+    import multiprocessing.queues  # noqa: F401
+    import multiprocessing.resource_tracker  # noqa: F401
+    import multiprocessing.shared_memory  # noqa: F401
+    import multiprocessing.synchronize  # noqa: F401
+    import queue  # noqa: F401
+    import tempfile  # noqa: F401
     from . import seams
     with seams.sim_locks():
         _import_bycycle()
